@@ -20,6 +20,10 @@ TAXA_POOL = [
     "import/standard/urllib", "import/standard/urllib.request", "import/standard/xml.etree.ElementTree", "a/b-c", "a/b.c",
     # names that START with "meta" without being under `meta/` (seeded changes C07-c, C17-e): ordinary taxa
     "metaclass/definition", "meta", "meta_x/y", "meta-programming/x",
+    # taxa under meta/ other than meta/program: `add_imported_taxa` does not copy them under the importers, so that an
+    # importer meets such a pattern through its imports only via the exportations (seed C04-l: `programs_of_taxa(follow)`
+    # rewritten over the copied taxa)
+    "meta/topic/game", "meta/count/sloc/5",
 ]
 # some paths, read as regular expressions, match OTHER paths too ("q.py" matches "q_py.py", "zz.py" matches "zzapy.py"):
 # a `.py` criterion is a pattern matched from the start, never a mere path (seeded change C04-c)
